@@ -20,7 +20,8 @@ CONSTANTS Mode, MaxCalls
 VARIABLES req, stage, attrs, outcome, log, stale
 vars == <<req, stage, attrs, outcome, log, stale>>
 
-ScatKinds == {"sphere", "layered", "spheres_mie", "spheres_multisphere", "spheroid", "cylinder", "sphere_mielens", "sphere_lens"}
+ScatKinds == {"sphere", "layered", "spheres_mie", "spheres_multisphere", "spheroid", "cylinder", "sphere_mielens", "sphere_lens",
+              "metal_coated_large"}      \* a 15-micron bead under a thin gold coat: the largest arguments the layered recursion sees
 \* multichannel_permuted: two illumination channels whose wavelength, polarisation and scaling are
 \* given per channel as dictionaries, each listing the channels in its own order (none in the detector's)
 \* pixel_subset: the detector is a flat random subset of a grid's pixels;  raised_plane: a grid whose own z is not 0
